@@ -11,7 +11,7 @@ from .. import world as W
 WEIRD = ['[line\u2028sep]', '[vt\x0bx]', '[ff\x0cx]', '[nel\x85x]', '[fs\x1cx]', '[a\nb]',
          '[tab\there]', '[ünï 中]', '[' + 'y' * 400 + ']', '[ps\u2029x]', '[1 2 3 4]', '[cr\rx]']
 LAYER_EXC = ['ValueError', 'KeyError', 'CustomError', 'AssertionError', 'TypeError', 'OSError',
-             'SkipTest', 'Unhashable', 'BadStr']
+             'SkipTest', 'Unhashable', 'BadStr', 'AttributeError', 'RuntimeError']
 
 
 # ---------------------------------------------------------------------------------------
@@ -203,14 +203,38 @@ def unrun_selected(m, spec, res, T):
     for o in T.occs:
         ran[o['tid']] = ran.get(o['tid'], 0) + 1
     missing = []
+    # every group of tests that did not run needs a failed set-up attempt OF ITS OWN (the runner
+    # tries again for every layer it runs: a base that failed for one group may work for the
+    # next): maximum matching between unrun groups and failed set-up events of their stacks
+    pool = [(p, l) for p, l, h, _ in T.layer_failures if h == 'setUp']
+    groups = []      # (lf, tests, host pid, candidates in pool)
     for lf, tests in sorted(sel.items()):
         lname = m.short(lf)
         hp = host_pid(res, m, lname)
         clos = m.closure(lname)
-        excused = any(p == hp and l in clos and h == 'setUp' for p, l, h, _ in T.layer_failures)
         # (a set-up hook that fails at the call leaves no trace event: known from the world)
-        excused = excused or any('setUp' in (m.layers[l].get('c_raise') or []) for l in clos)
-        if excused:
+        if any('setUp' in (m.layers[l].get('c_raise') or []) for l in clos):
+            continue
+        if all(ran.get(d['tid'], 0) >= repeat for d in tests):
+            continue
+        groups.append((lf, tests, hp, [i for i, (p, l) in enumerate(pool)
+                                       if p == hp and l in clos]))
+    match = {}
+
+    def augment(j, seen):
+        for i in groups[j][3]:
+            if i in seen:
+                continue
+            seen.add(i)
+            if i not in match or augment(match[i], seen):
+                match[i] = j
+                return True
+        return False
+    for j in range(len(groups)):
+        augment(j, set())
+    excused = set(match.values())
+    for j, (lf, tests, hp, _) in enumerate(groups):
+        if j in excused:
             continue
         for d in tests:
             if ran.get(d['tid'], 0) < repeat:
